@@ -391,6 +391,17 @@ def garbage_collect(
     if not dry_run:
         repo.refs.pack_refs()
 
+    # The scan above and pack_refs() can take long. A writer that re-used one
+    # of these objects in the meantime has refreshed its mtime (or written a
+    # new copy), so look at the age again right before anything is destroyed.
+    if prune and not dry_run and grace_period is not None:
+        for sha in list(unreachable_to_prune):
+            try:
+                if time.time() - object_store.get_object_mtime(sha) < grace_period:
+                    unreachable_to_prune.discard(sha)
+            except KeyError:
+                unreachable_to_prune.discard(sha)
+
     # Delete loose unreachable objects
     if prune and not dry_run:
         for sha in unreachable_to_prune:
